@@ -254,18 +254,22 @@ def unquoteToBytes : Str → Bytes
 /-- `bytes.decode(enc, "replace")` -/
 def decodeEnc (enc : Enc) (bs : Bytes) : Str :=
   match enc with
-  | .utf8 => Py.decodeReplace bs
+  | .utf8 => Py.decodeReplaceFuel (bs.length + 1) bs   -- the replacing scanner decodes valid input too
   | .latin1 => Py.latin1Dec bs
   | .ascii => bs.map fun b => if b < 0x80 then Char.ofNat b.toNat else Char.ofNat 0xFFFD
+
+/-- decode one maximal ASCII run (accumulated in reverse) -/
+def pctFlush (enc : Enc) (run : Str) : Str :=
+  if run.isEmpty then [] else decodeEnc enc (unquoteToBytes run.reverse)
+
+def pctGo (enc : Enc) : Str → Str → Str
+  | [], run => pctFlush enc run
+  | c :: t, run => if c.toNat < 128 then pctGo enc t (c :: run) else pctFlush enc run ++ c :: pctGo enc t []
 
 /-- `urllib.parse.unquote(s, encoding=enc)` (errors="replace"): every maximal ASCII run is
 percent-decoded to bytes and decoded with `enc`; non-ASCII text passes through. -/
 def pctUnquote (enc : Enc) (s : Str) : Str :=
-  let flush (run : Str) : Str := if run.isEmpty then [] else decodeEnc enc (unquoteToBytes run.reverse)
-  let rec go : Str → Str → Str
-    | [], run => flush run
-    | c :: t, run => if c.toNat < 128 then go t (c :: run) else flush run ++ c :: go t []
-  if s.contains '%' then go s [] else s
+  if s.contains '%' then pctGo enc s [] else s
 
 /-- `_charset_value_re.match(v)`: (charset, value) — the match is anchored at the start only -/
 def charsetValue? (v : Str) : Option (Str × Str) :=
@@ -395,38 +399,49 @@ structure OptState where
   encoding : Option Str := none
   continued : Option Str := none
 
-/-- processing of one collected part (charset, continuation, unquoting) -/
-def optPart (st : OptState) (pk pv : Str) : Except String OptState := do
-  let l ← last! pk
-  let mut st := st
-  let mut pk := pk
-  let mut pv := pv
-  if l == '*' then
-    pk := pk.dropLast
-    if pk.isEmpty then return st
-    match charsetValue? pv with
-    | some (e, v) =>
-      st := { st with encoding := some (pyLower e) }
-      pv := v
-    | none => pure ()
-    -- `if not encoding: encoding = continued_encoding`
-    match st.encoding with
-    | some (_ :: _) => pure ()
-    | _ => st := { st with encoding := st.continued }
-    match st.encoding.bind encOfName with
-    | some enc =>
-      st := { st with continued := st.encoding }
-      pv := pctUnquote enc pv
-    | none => pure ()
+/-- RFC 2231 charset handling for a starred key: `(state, value)` after the optional
+`charset'lang'` split and percent-decoding -/
+def optStar (st : OptState) (pv : Str) : OptState × Str :=
+  let sp : OptState × Str := match charsetValue? pv with
+    | some (e, v) => ({ st with encoding := some (pyLower e) }, v)
+    | none => (st, pv)
+  -- `if not encoding: encoding = continued_encoding`
+  let st1 : OptState := match sp.1.encoding with
+    | some (_ :: _) => sp.1
+    | _ => { sp.1 with encoding := sp.1.continued }
+  match st1.encoding.bind encOfName with
+  | some enc => ({ st1 with continued := st1.encoding }, pctUnquote enc sp.2)
+  | none => (st1, sp.2)
+
+/-- `if pv[0] == pv[-1] == '"': pv = pv[1:-1].replace(...)...` — IndexError on an empty value -/
+def optUnquote (pv : Str) : Except String Str := do
   let f ← first! pv
   let e ← last! pv
   if f == '"' && e == '"' then
-    pv := replace3 '%' '2' '2' ['"'] (unescapeDq (pv.drop 1).dropLast)
+    pure (replace3 '%' '2' '2' ['"'] (unescapeDq (pv.drop 1).dropLast))
+  else pure pv
+
+/-- continuation handling and the final `options[pk] = pv` -/
+def optStore (st : OptState) (pk pv : Str) : OptState :=
   match continuation? pk with
   | some base =>
     let old := (dictGet? st.options base).getD []
-    return { st with options := dictSet st.options base (old ++ pv) }
-  | none => return { st with options := dictSet st.options pk pv }
+    { st with options := dictSet st.options base (old ++ pv) }
+  | none => { st with options := dictSet st.options pk pv }
+
+/-- processing of one collected part (charset, continuation, unquoting) -/
+def optPart (st : OptState) (pk pv : Str) : Except String OptState := do
+  let l ← last! pk
+  if l == '*' then
+    let pk := pk.dropLast
+    if pk.isEmpty then pure st
+    else
+      let sp := optStar st pv
+      let pv ← optUnquote sp.2
+      pure (optStore sp.1 pk pv)
+  else
+    let pv ← optUnquote pv
+    pure (optStore st pk pv)
 
 def optFold (st : OptState) (p : Str × Str) : Except String OptState := optPart st p.1 p.2
 
